@@ -3,11 +3,12 @@ CONSTANTS
   NameSeq <- MC_NameSeq
   MaxVer = 2
   MaxContent = 2
-  MaxSteps = 4
+  MaxSteps = 3
   Rotations = {"same", "online"}
   Foreign = TRUE
   Plans <- MC_AnyPlan
+  Expiry = TRUE
 VIEW view
-INVARIANTS TypeOK RefreshSeesPublished MonotonePublisherServes RefusalMeansRollback CloneFaithful CloneNeverWrong DownloadFaithful PublishedComplete
+INVARIANTS TypeOK ExpiredNeverTrusted ToolsRefuseExpired RefreshSeesPublished MonotonePublisherServes RefusalMeansRollback CloneFaithful CloneNeverWrong DownloadFaithful PublishedComplete
 PROPERTIES UpdateKeeps TransferKeeps ClientMonotone
 CHECK_DEADLOCK FALSE
